@@ -376,6 +376,8 @@ func (sc *SecretManagerClient) tryAddFileWatcher(file string, resourceName strin
 	cacheLog.Infof("adding watcher for file certificate %s", file)
 	if err := sc.certWatcher.Add(file); err != nil {
 		cacheLog.Errorf("%v: error adding watcher for file %v, retrying watches: %v", resourceName, file, err)
+		// Not watching: forget the file so that the retry (and later requests) try to add the watcher again.
+		delete(sc.fileCerts, key)
 		numFileWatcherFailures.Increment()
 		return err
 	}
